@@ -141,7 +141,7 @@ ALT = 'settings-2024.yaml'
 
 def classification(root):
     """`tally up` as the user would run it from the budget root (auto-detected config dir), fresh process."""
-    alt = ['--settings', ALT] if os.path.exists(os.path.join(root, 'config', ALT)) else []
+    alt = ['--settings', ALT] if (os.path.exists(os.path.join(root, 'config', ALT)) or os.path.exists(os.path.join(root, 'tally', 'config', ALT))) else []
     p = B.tally(root, 'up', *alt, '--format', 'json', '-v', '-q')
     if p.returncode != 0:
         return {'failed': (p.stderr or p.stdout).strip().splitlines()[-1][:120] if (p.stderr or p.stdout).strip() else 'exit %d' % p.returncode}
